@@ -2,7 +2,7 @@
    two addresses under one secret does not depend on the secret.  Whoever holds a token issued to one address
    can compute the token of any other address without knowing the secret. *)
 From Coq Require Import Lia.
-From MLV Require Import gen.Params model.Bytes model.Crc32c model.Node model.Tokens
+From MLV Require Import gen.Params model.Bytes model.Crc32c model.Node model.Tokens model.Check03
   proofs.IdProofs proofs.TokenProofs proofs.KrpcProofs.
 Open Scope N_scope.
 
@@ -90,3 +90,7 @@ Proof.
   intros W L. unfold tok_generate, tok_validate. rewrite (token_derivable _ ip ip' W L).
   apply orb_true_iff. left. apply bytes_eqb_refl.
 Qed.
+
+(* the derivation the correspondence check recognises as the known class (Check03.forge_tok) is this one *)
+Lemma check_forge_is_tok_derive ip ip' tok : MLV.model.Check03.forge_tok ip ip' tok = tok_derive ip ip' tok.
+Proof. reflexivity. Qed.
